@@ -451,6 +451,42 @@ def run_shard(tier, seed, only, rank, nproc):
                 import traceback
 
                 b.error(f"{name} {opts} [{layout}]: {type(e).__name__}: {e} :: {traceback.format_exc()[-300:]}")
+    # masked ufuncs whose LOCAL derivative is not finite exactly where the mask excludes the element (the safe-divide idiom: divide(x, d, where=d != 0),
+    # sqrt / log / reciprocal away from 0): excluded positions contribute 0 -- not inf * 0 = nan -- to every operand; included ones the usual derivative
+    if rank == 0 and (not only or only in ("masked", "where")):
+        xv_ = np.array([1.0, 2.0, 3.0, 4.0])
+        dv_ = np.array([2.0, 0.0, 4.0, 0.0])
+        zv_ = np.array([4.0, 0.0, 9.0, 0.0])
+        masked_cases = [
+            ("divide", lambda x, d, m: mg.divide(x, d, where=m, out=np.zeros(4)), (xv_, dv_), dv_ != 0, lambda x, d: (1.0 / np.where(d != 0, d, 1.0), -x / np.where(d != 0, d, 1.0) ** 2)),
+            ("sqrt", lambda z, _u, m: mg.sqrt(z, where=m, out=np.zeros(4)), (zv_, None), zv_ > 0, lambda z, _u: (0.5 / np.sqrt(np.where(z > 0, z, 1.0)), None)),
+            ("log", lambda z, _u, m: mg.log(z, where=m, out=np.zeros(4)), (zv_, None), zv_ > 0, lambda z, _u: (1.0 / np.where(z > 0, z, 1.0), None)),
+            ("reciprocal", lambda z, _u, m: mg.reciprocal(z, where=m, out=np.zeros(4)), (zv_, None), zv_ != 0, lambda z, _u: (-1.0 / np.where(z != 0, z, 1.0) ** 2, None)),
+            ("power", lambda z, _u, m: mg.power(z, -1.0, where=m, out=np.zeros(4)), (zv_, None), zv_ != 0, lambda z, _u: (-1.0 / np.where(z != 0, z, 1.0) ** 2, None)),
+            ("arctan2-like divide in place", lambda x, d, m: mg.divide(x * 1.0, d, where=m), (xv_, dv_), dv_ != 0, lambda x, d: (1.0 / np.where(d != 0, d, 1.0), -x / np.where(d != 0, d, 1.0) ** 2)),
+        ]
+        for nm_, call_, (a_, b_), m_, ref_ in masked_cases:
+            desc = dict(fn=nm_, contract="excluded positions contribute 0 although the local derivative is not finite there", mask=m_.tolist(), operands=[a_.tolist(), None if b_ is None else b_.tolist()])
+            b.count("vjp")
+            ta = mg.tensor(a_.copy())
+            tb_ = None if b_ is None else mg.tensor(b_.copy())
+            try:
+                with np.errstate(all="ignore"):
+                    out = call_(ta, tb_, m_)
+                    g = np.array([1.0, 2.0, 3.0, 4.0])
+                    out.backward(g)
+            except Exception as e:
+                b.fail(f"C02.rest.{nm_}.backward_raises", desc, f"{type(e).__name__}: {e}")
+                continue
+            ra, rb = ref_(a_, b_)
+            for i_, (t_, r_) in enumerate(((ta, ra), (tb_, rb))):
+                if t_ is None or r_ is None:
+                    continue
+                exp = np.where(m_, r_ * g, 0.0)
+                got = t_.grad
+                if got is None or not np.all(np.isfinite(got)) or not np.allclose(got, exp, rtol=1e-12, atol=0):
+                    b.fail(f"C02.rest.{nm_}.masked_nonfinite", dict(desc, operand=i_), f"grad of operand {i_}: {None if got is None else got.tolist()}, expected {exp.tolist()}")
+            b.case(desc, nontrivial=True)
     # translation invariance: d std(x + c)/dx = d std(x)/dx, likewise var -- at offsets c far larger than the spread of x, where a backward pass
     # that recomputes the statistics with a cancelling formula (E[x^2] - E[x]^2) stops being the VJP of the (stable) forward pass.  The numeric
     # oracle is useless at such magnitudes; the gradient at offset 0 (itself checked against the numeric VJP above) is the reference.
